@@ -70,7 +70,12 @@ func (s Set[T]) Has(val T) bool {
 func (s Set[T]) Copy() Set[T] {
 	ret := NewSet(s.rules)
 	for k, v := range s.vals {
-		ret.vals[k] = v
+		// Each set must own its buckets: Add appends to a bucket in place, so
+		// sharing the backing array would let the copy and the original
+		// overwrite each other's members.
+		bucket := make([]T, len(v))
+		copy(bucket, v)
+		ret.vals[k] = bucket
 	}
 	return ret
 }
